@@ -83,6 +83,10 @@ Wanted(q, pool) ==
 Anchored(q, pool) == q.allAnch \/ Wanted(q, pool)
 
 \* the Orchard pool from NU6.3 on forbids transfers between addresses: plain outputs cannot be built
+\* (orchard `BundleType::num_actions`: with cross-address transfers disabled a requested spend and a requested
+\* output never share an action - requested actions = spends + outputs, else max(spends, outputs).  The bundle
+\* version, hence this rule, follows the consensus branch of the target height - "Orchard pool, NU6.3 onward:
+\* cross-address disabled (consensus-mandated)" - and not the transaction version that is proposed.)
 CrossAddress(q, pool) == ~(pool = "o" /\ q.regime = "nu63")
 
 \* every add_* call of the request can be made at all
@@ -259,6 +263,9 @@ Trichotomy(q) ==
 \* without inputs the whole of outputs + fee is missing
 NoInputs(q) ==
     (~Unsupported(q) /\ InCount(q) = 0) => BuildSpec(q) = [k |-> "insufficient", amt |-> SumOut(q) + FeeOf(q)]
+
+\* the shape that is built and charged does not depend on the proposed transaction version
+CountsIgnoreProposedVersion(q) == PaddedCounts(q) = PaddedCounts([q EXCEPT !.pv = "none"])
 
 \* support does not depend on amounts
 SupportIsStructural(q) == Unsupported(q) = Unsupported([q EXCEPT !.delta = 0])
